@@ -49,7 +49,8 @@ def plan(tier):
 
 def floors(tier):
     f = {f"prov:{name}": 3 for name in PROVS}
-    f.update({"additions-checked": 3000, "auto-ids-checked": 1500, "dup-explicit-ids-checked": 100, "unprobed-ok": 1})
+    f.update({"additions-checked": 3000, "auto-ids-checked": 1500, "dup-explicit-ids-checked": 100, "unprobed-ok": 1,
+              "history-then:pickle": 100, "history-then:copy": 100, "history-then:ctor": 100, "history-then:relabel": 100})
     return f
 
 
@@ -623,14 +624,18 @@ def additions(mon, net, rng, prov_name, hist):
         cands = [i for i in (0, 1, 2, 3, 5, 8, -1, 13, "x", "y", True, 4.0, np.int64(6), 21, 34, "zq", 55, 89, -7) if i not in taken]
         return rng.choice(cands) if cands else 1000 + rng.randint(0, 10**6)
 
-    for step in range(rng.randint(1, 6)):
+    n_add = rng.randint(2, 7)
+    for step in range(n_add):
         pre = estate(net)
+        full_pre = snap.snap(net, order=False)
         kinds = ["auto", "auto", "explicit-new", "bulk1", "bulk3", "bulk2", "bulk4", "bulk5"]
         if pre:
             kinds.append("explicit-dup")
         if not sc:
             kinds.append("add_node_to_edge")
-        kind = rng.choice(kinds)
+        # the first additions after obtaining the network are automatic ones: that is where a counter that was
+        # not carried over (copy, pickle, converter, reader) shows
+        kind = rng.choice(kinds) if step >= 2 else rng.choice(("auto", "auto", "bulk1", "bulk3"))
         add_one = "add_simplex" if sc else "add_edge"
         add_many = "add_simplices_from" if sc else "add_edges_from"
         requested = []  # (members, explicit id or None)
@@ -705,6 +710,10 @@ def additions(mon, net, rng, prov_name, hist):
                 present = frozenset(requested[0][0]) in {m for m, _ in pre.values()}
                 if not present and not warns:
                     return fire("dup-id-no-warning", f"explicit ID {requested[0][1]!r} already existed but no warning was emitted")
+            full_post = snap.snap(net, order=False)
+            if full_post != full_pre:
+                diff = [("class", "nodes", "edges", "memberships", "net-attrs")[i] for i in range(5) if full_post[i] != full_pre[i]]
+                return fire("dup-id-refusal-changed-network", f"the refused addition with existing ID {requested[0][1]!r} changed the network ({diff})")
             continue
         # (b) the requested number of new IDs appeared; automatic ones are fresh ints
         if sc:
@@ -782,7 +791,19 @@ def run_case(mon, kind, idx, rng):
             op = gen.gen(net)
             hist.append(repr(op))
             common.run_op(op, net)
-        mon.note(f"prov:{name}")
+        how = rng.choice(("none", "copy", "pickle", "ctor", "relabel"))
+        if how == "copy":
+            net = net.copy()
+        elif how == "pickle":
+            net = pickle.loads(pickle.dumps(net))
+        elif how == "ctor" and not snap.inv(net):
+            net = type(net)(net)
+        elif how == "relabel" and not snap.inv(net):
+            net = xgi.convert_labels_to_integers(net)
+        name = f"history:{cls}+{how}"
+        hist.append(f"<then {how}>")
+        mon.note(f"prov:history:{cls}")
+        mon.note(f"history-then:{how}")
     if getattr(net, "is_frozen", False):
         net = net.copy()
     if snap.inv(net):
